@@ -92,6 +92,8 @@ class Exec:
     def __init__(self, on_call: Optional[Callable] = None, invariants: Optional[Dict[str, Iv]] = None, partition: Optional[Set[str]] = None,
                  on_stmt: Optional[Callable] = None, pure_calls: Optional[Dict[str, Iv]] = None, on_assign: Optional[Callable] = None,
                  leq: Optional[Set[Tuple[str, str]]] = None, override: Optional[Callable] = None):
+        self.on_mem = None               # (kind, expr, state): kind in index-read/index-write/new/delete
+        self.unroll = 0                  # >0: unroll loops whose condition is decided, up to this many iterations
         self.leq = leq or set()          # (a, b): variable a <= variable b is an invariant of the program
         self.override = override         # (name, expr, state) -> Iv or None : documented special transfer
         self.on_call = on_call
@@ -221,6 +223,12 @@ class Exec:
             return self.ev(e[3], st)
         if t == "sizeof":
             return Iv(1, INF)
+        if t == "post":
+            return self.ev(e[2], st)
+        if t == "pre":
+            a = self.ev(e[2], st)
+            d = 1 if e[1] == "++" else -1
+            return Iv(a.lo + d, a.hi + d, a.lo_s, a.hi_s)
         return TOP()
 
     def decide(self, c, st: State):
@@ -420,6 +428,14 @@ class Exec:
         t = e[0]
         if t == "assign":
             self.effects(e[3], st)
+            if e[2][0] == "index":
+                if self.on_mem:
+                    self.on_mem("index-write", e[2], st)
+                if e[1] != "=" and self.on_mem:
+                    self.on_mem("index-read", e[2], st)
+                self.effects(e[2][1], st)
+                self.effects(e[2][2], st)
+                return
             n = lname(e[2])
             if n:
                 if e[1] == "=":
@@ -448,6 +464,20 @@ class Exec:
             return
         if t == "cond":
             self.effects(e[1], st)
+            return
+        if t == "index":
+            if self.on_mem:
+                self.on_mem("index-read", e, st)
+            self.effects(e[1], st)
+            self.effects(e[2], st)
+            return
+        if t == "new":
+            if e[2] is not None:
+                self.effects(e[2], st)
+            return
+        if t == "delete":
+            if self.on_mem:
+                self.on_mem("delete", e, st)
             return
         for x in e[1:]:
             if isinstance(x, tuple):
@@ -565,6 +595,43 @@ class Exec:
             entry0 = head.copy()
             exits = []
             last_ends = []
+            # loops whose condition is decided by the current (concrete enough) state are unrolled exactly
+            if self.unroll and len(sts) == 1 and s["cond"] is not None:
+                cur = [sts[0].copy()]
+                done_states = []
+                brk_states = []
+                rets = []
+                complete = False
+                for _i in range(self.unroll):
+                    nxt = []
+                    for c_ in cur:
+                        d = self.decide(s["cond"], c_)
+                        if d is None:
+                            nxt = None
+                            break
+                        if d is False:
+                            ex_ = self.refine(s["cond"], c_.copy(), False)
+                            done_states.append(ex_ if ex_ is not None else c_)
+                            continue
+                        rb = self.run(s["body"], [c_])
+                        ends = rb["fall"] + rb["cont"]
+                        brk_states += rb["brk"]
+                        rets += rb["ret"]
+                        if k == "for" and s["inc"] is not None:
+                            for e_ in ends:
+                                self.effects(s["inc"], e_)
+                        nxt += ends
+                    if nxt is None:
+                        break
+                    cur = self._merge(nxt, limit=64)
+                    if not cur:
+                        complete = True
+                        break
+                if complete:
+                    res["fall"] = done_states + brk_states
+                    res["ret"] += rets
+                    return res
+                # not fully decided: fall back to the fixpoint below (from the original entry)
             for it in range(8):
                 entry = self.refine(s["cond"], head.copy(), True) if s["cond"] is not None else head.copy()
                 new_head = head
